@@ -23,8 +23,21 @@ EXPLANATION = (
     "only under `seeds is not None`. (P5) None-safety of reclaimable fields: every load outside a comparison flows "
     "into a local whose every use is reached only through a `is not None` branch (or a recomputation), and every "
     "accessor call that does not pass compute=True is dominated -- in the function or in each of its callers -- by a "
-    "computing call for the same node with no intervening store of None."
+    "computing call for the same node with no intervening store of None. (P6) history independence: a reclaimable "
+    "field is read only by its own recompute-on-demand accessor for the accessor's own node, by a load whose None case "
+    "falls back to that accessor, or at a reviewed place where both cases compute the same value (table "
+    "PRESENCE_NEUTRAL); any other read makes a result depend on what happens to be cached."
 )
+# Reviewed places where the *presence* of reclaimable data selects between two computations that give the same result.
+PRESENCE_NEUTRAL = {
+    ("SuccessionDiagram.node_percolated_petri_net", "percolated_petri_net", "other"):
+        "restriction composes: restricting the parent's restricted net to the node's space equals restricting the global "
+        "net (the space argument is checked by C10-F)",
+    ("SuccessionDiagram._expand_one_node", "percolated_petri_net", "own"):
+        "trappist on the restricted net joined with the node space equals trappist on the global net with "
+        "ensure_subspace (both branches are checked by C02/C04)",
+}
+
 ASSUMPTIONS = [
     "BooleanNetwork.from_aeon orders variables by name (AEON text format); to_aeon/from_aeon round-trips update functions",
     "pickle preserves networkx graphs and plain dict/list data",
@@ -47,6 +60,8 @@ def run(ck: Check) -> None:
     p3(ck)
     reclaimable = p4(ck)
     p5(ck, reclaimable)
+    p6(ck, reclaimable)
+    ck.floor("P6", 6)
     ck.floor("P1", 3)
     ck.floor("P2", 2)
     ck.floor("P3", 4)
@@ -525,6 +540,65 @@ def p5(ck: Check, acc: dict[str, str]) -> None:
             ok, why = _dominated_by_computing_call(prog, fm, n, cn, callee_name(n), accessors[callee_name(n)])
             ck.ob("P5", fm, fm.f.stmt_of(n), ok, why if ok else
                   f"`{text(n)[:60]}` does not compute and {why}: it raises KeyError once the node's data was reclaimed")
+
+
+# ------------------------------------------------------------------------------------------ P6
+def p6(ck: Check, acc: dict[str, str]) -> None:
+    prog = ck.prog
+    reclaim = _sd(ck, "reclaim_node_data")
+    cleared = set()
+    for e in reclaim.field_events():
+        if e.kind == "store":
+            if e.field == "*":
+                cleared |= (reclaim.dynamic_fields(e, prog.repo.typeddict_keys("NodeData")) or set())
+            else:
+                cleared.add(e.field)
+    used = set()
+    for fm in prog.models():
+        if fm.f.qualname in ("SuccessionDiagram.reclaim_node_data",):
+            continue
+        for e in fm.field_events():
+            if e.kind != "load" or e.field not in cleared:
+                continue
+            own_param = [p_ for p_ in fm.f.params() if p_ != "self"][:1]
+            own = bool(own_param) and e.nid == own_param[0]
+            if fm.f.qualname == acc.get(e.field) and own:
+                ck.ob("P6", fm, e.stmt, True, f"`{e.field}`: the accessor's own cache")
+                continue
+            k = (fm.f.qualname, e.field, "own" if own else "other")
+            if k in PRESENCE_NEUTRAL:
+                used.add(k)
+                ck.ob("P6", fm, e.stmt, True, f"`{e.field}` presence-neutral (reviewed): {PRESENCE_NEUTRAL[k]}",
+                      key=f"{e.field} read in {fm.f.name} ({k[2]} node)")
+                continue
+            if _falls_back_to_accessor(fm, e, acc):
+                ck.ob("P6", fm, e.stmt, True, f"`{e.field}`: the None case falls back to the accessor")
+                continue
+            ck.ob("P6", fm, e.stmt, False,
+                  f"`{text(e.node)[:60]}` reads data that reclaim_node_data (and the computation of seeds) may have dropped, "
+                  f"outside of the field's accessor: what is computed here depends on whether the value happens to be "
+                  f"cached, so a reclaimed (or re-loaded) diagram can answer differently from an untouched one",
+                  key=f"{e.field} read in {fm.f.name} ({k[2]} node)")
+    for k in PRESENCE_NEUTRAL:
+        if k not in used:
+            ck.note(f"P6: reviewed exception {k} no longer occurs")
+
+
+def _falls_back_to_accessor(fm: FuncModel, e, acc) -> bool:
+    st = e.stmt
+    if not (isinstance(st, ast.Assign) and st.value is e.node and isinstance(st.targets[0], ast.Name)):
+        return False
+    v = st.targets[0].id
+    name = acc.get(e.field, ".?").split(".")[1]
+    for n in own_walk(fm.f.node):
+        if isinstance(n, ast.Assign) and isinstance(n.targets[0], ast.Name) and n.targets[0].id == v and \
+                isinstance(n.value, ast.Call) and callee_name(n.value) == name and n is not st:
+            cn = fm.cfgn(n)
+            pc = fm.pc(cn)
+            kv = logic.B("none:" + fm.key(ast.Name(id=v, ctx=ast.Load()), cn))
+            if kv[1] in logic.atoms(pc) and logic.implies(pc, kv):
+                return True
+    return False
 
 
 def _asserts_not_none(fm: FuncModel, b, v: str) -> bool:
